@@ -2,6 +2,7 @@ import json
 import logging
 import os
 import time
+import uuid
 from pathlib import PurePath
 from typing import Any, Optional, List, Union, Dict, Tuple
 from collections import OrderedDict
@@ -202,15 +203,21 @@ class LocalFileStore(Store):
             STU.from_type(type(blob)), codec
         )
         p = os.path.join(self._root, "blobs", key)
+        # The blob and its metadata are written under a temporary name and then renamed: a process that is
+        # killed, or another process that looks at the store at the same time, never leaves or sees a
+        # partially written file under the final name.
+        tmp_p = _tmp_name(p)
         if isinstance(protocol, CodecProtocol):
-            protocol.serialize_into(blob, GenericLocation(p))
+            protocol.serialize_into(blob, GenericLocation(tmp_p))
         elif isinstance(protocol, FileCodecProtocol):
             # This is the local file system, we can directly copy the file to its final destination
-            protocol.serialize_into(blob, PurePath(p))
+            protocol.serialize_into(blob, PurePath(tmp_p))
         else:
             raise DDSException(f"Wrong protocol type: {type(protocol)} {protocol}")
+        os.replace(tmp_p, p)
         meta_p = os.path.join(self._root, "blobs", key + ".meta")
-        with open(meta_p, "wb") as f:
+        tmp_meta_p = _tmp_name(meta_p)
+        with open(tmp_meta_p, "wb") as f:
             f.write(
                 json.dumps(
                     {
@@ -219,11 +226,14 @@ class LocalFileStore(Store):
                     }
                 ).encode("utf-8")
             )
+        os.replace(tmp_meta_p, meta_p)
         _logger.debug(f"Committed new blob in {key}")
 
     def has_blob(self, key: PyHash) -> bool:
+        # The metadata is written last: a blob is only present when it is there too (see fetch_blob)
         p = os.path.join(self._root, "blobs", key)
-        return os.path.exists(p)
+        meta_p = os.path.join(self._root, "blobs", key + ".meta")
+        return os.path.exists(p) and os.path.exists(meta_p)
 
     def _path_location(self, path: DDSPath) -> Tuple[str, str]:
         """
@@ -274,6 +284,12 @@ class LocalFileStore(Store):
 
     def codec_registry(self) -> CodecRegistry:
         return codec_registry()
+
+
+def _tmp_name(p: str) -> str:
+    """A name next to p that is unique to this process and call, for files that are renamed to p once complete."""
+    (d, name) = os.path.split(p)
+    return os.path.join(d, f".{name}.tmp.{os.getpid()}.{uuid.uuid4().hex}")
 
 
 def current_timestamp() -> int:
